@@ -703,10 +703,10 @@ where
                     if let Err(e) = self.handle_insert_event(res) {
                         tracing::error!("fail to handle insert event: {}", e);
                         #[cfg(transparencies_stretto_verif)]
-                        crate::verif::counters::inc(&crate::verif::counters::HANDLER_ERRORS);
+                        self.verif_guard.inc(&crate::verif::counters::HANDLER_ERRORS);
                     }
                     #[cfg(transparencies_stretto_verif)]
-                    crate::verif::counters::inc(&crate::verif::counters::ITEMS_HANDLED);
+                    self.verif_guard.inc(&crate::verif::counters::ITEMS_HANDLED);
                 },
                 recv(self.clear_rx) -> wg => {
                     #[cfg(transparencies_stretto_verif)]
@@ -714,10 +714,10 @@ where
                     if let Err(e) = self.handle_clear_event() {
                         tracing::error!("fail to handle clear event: {}", e);
                         #[cfg(transparencies_stretto_verif)]
-                        crate::verif::counters::inc(&crate::verif::counters::HANDLER_ERRORS);
+                        self.verif_guard.inc(&crate::verif::counters::HANDLER_ERRORS);
                     }
                     #[cfg(transparencies_stretto_verif)]
-                    crate::verif::counters::inc(&crate::verif::counters::CLEARS_DONE);
+                    self.verif_guard.inc(&crate::verif::counters::CLEARS_DONE);
                     if let Ok(wg) = wg {
                         wg.done();
                     }
@@ -726,14 +726,14 @@ where
                     #[cfg(transparencies_stretto_verif)]
                     crate::verif::sched::point("proc:tick_arm");
                     #[cfg(transparencies_stretto_verif)]
-                    crate::verif::counters::inc(&crate::verif::counters::TICKS_STARTED);
+                    self.verif_guard.inc(&crate::verif::counters::TICKS_STARTED);
                     if let Err(e) = self.handle_cleanup_event(msg) {
                         tracing::error!("fail to handle cleanup event: {}", e);
                         #[cfg(transparencies_stretto_verif)]
-                        crate::verif::counters::inc(&crate::verif::counters::HANDLER_ERRORS);
+                        self.verif_guard.inc(&crate::verif::counters::HANDLER_ERRORS);
                     }
                     #[cfg(transparencies_stretto_verif)]
-                    crate::verif::counters::inc(&crate::verif::counters::TICKS_DONE);
+                    self.verif_guard.inc(&crate::verif::counters::TICKS_DONE);
                 },
                 recv(self.stop_rx) -> _ => {
                     // Nobody is going to serve the insert buffer any more: release whoever
